@@ -562,7 +562,7 @@ theorem scanLoop_wire (c : Cfg) (E : Ecu) (n : Nat) (st : St) (h : WireInv c st)
 
 theorem scan_wire (c : Cfg) (E : Ecu) : WireInv c (scan c E) := by
   apply scanLoop_wire
-  refine ⟨fun r hr => by cases hr, ?_⟩
+  refine ⟨fun r hr => (by cases hr), ?_⟩
   intro σ hσ
   simp only [initSt, List.mem_singleton] at hσ
   subst hσ
